@@ -1,5 +1,5 @@
 (* GENERATED on every run by harness/vlib/py2coq.py + harness/props/c04_src.py (symbolic execution of the Python source). Do not edit.
-   sources: /var/tmp/seed/C02-6/wt/commonroad/scenario/obstacle.py sha1=f6f65f0480b8, /var/tmp/seed/C02-6/wt/commonroad/scenario/trajectory.py sha1=bbb9191723e1, /var/tmp/seed/C02-6/wt/commonroad/prediction/prediction.py sha1=1d2301001a08, /var/tmp/seed/C02-6/wt/commonroad/common/util.py sha1=0f7c26f92d2c *)
+   sources: /repo/commonroad/scenario/obstacle.py sha1=f6f65f0480b8, /repo/commonroad/scenario/trajectory.py sha1=bbb9191723e1, /repo/commonroad/prediction/prediction.py sha1=1d2301001a08, /repo/commonroad/common/util.py sha1=0f7c26f92d2c *)
 From Coq Require Import ZArith Bool List String.
 From CR Require Import Base.PyRes Model.Interval Model.TrafficLight Model.Occupancy Model.DispatchCfg.
 Open Scope Z_scope.
